@@ -3,8 +3,9 @@
 (* and the confirmed history of every script.  Written independently of how ElectrumX    *)
 (* computes them; used by Index.tla (invariants) and by IndexTrace.tla / ClientTrace.tla *)
 (* (validation of views recorded from the real code).                                    *)
-(* A tree is a function block id -> [parent, height, txs] (txs: tx ids, coinbase first); *)
-(* a chain is a sequence of block ids from the genesis block 0.                          *)
+(* A tree is a function block id -> [parent, height, txs, cb] (txs: tx ids, coinbase      *)
+(* first; cb: the outputs of the block's coinbase); a chain is a sequence of block ids   *)
+(* from the genesis block 0.                                                             *)
 EXTENDS Universe, FiniteSets, SequencesExt
 
 SpendableAt(o, h, act) == IF h >= act THEN o.s # 6 ELSE o.s \notin {5, 6}
@@ -14,32 +15,35 @@ ChainOfIn(tr, b) == IF b = 0 THEN <<0>> ELSE Append(ChainOfIn(tr, tr[b].parent),
 RECURSIVE TxSeqIn(_, _)
 TxSeqIn(tr, c) == IF c = <<>> THEN <<>>
                   ELSE TxSeqIn(tr, Front(c)) \o [k \in 1..Len(tr[Last(c)].txs) |-> <<tr[Last(c)].txs[k], Len(c) - 1>>]
-ApplyTxAt(U, t, h, act) ==
+(* outputs of any tx id: the coinbase of block b > 0 pays what the tree says *)
+OutsIn(tr, t) == IF t > CB THEN tr[t - CB].cb ELSE TxOuts(t)
+ApplyTxAt(tr, U, t, h, act) ==
   LET spent == { <<TxIns(t)[k][1], TxIns(t)[k][2]>> : k \in 1..Len(TxIns(t)) }
       kept == { e \in U : <<e.t, e.i>> \notin spent }
-      new == { [t |-> t, i |-> k - 1, s |-> TxOuts(t)[k].s, v |-> TxOuts(t)[k].v, h |-> h] :
-                 k \in { j \in 1..Len(TxOuts(t)) : SpendableAt(TxOuts(t)[j], h, act) } }
+      outs == OutsIn(tr, t)
+      new == { [t |-> t, i |-> k - 1, s |-> outs[k].s, v |-> outs[k].v, h |-> h] :
+                 k \in { j \in 1..Len(outs) : SpendableAt(outs[j], h, act) } }
   IN kept \cup new
 (* scripts a transaction touches: scripts of the UTXOs it spends and of its indexed outputs *)
-TouchesAt(U, t, h, act) ==
+TouchesAt(tr, U, t, h, act) ==
   { e.s : e \in { x \in U : \E k \in 1..Len(TxIns(t)) : TxIns(t)[k] = <<x.t, x.i>> } }
-  \cup { TxOuts(t)[k].s : k \in { j \in 1..Len(TxOuts(t)) : SpendableAt(TxOuts(t)[j], h, act) } }
+  \cup { OutsIn(tr, t)[k].s : k \in { j \in 1..Len(OutsIn(tr, t)) : SpendableAt(OutsIn(tr, t)[j], h, act) } }
 (* one pass over a tx sequence: the UTXO set and, per script, the confirmed history as     *)
 (* <<tx id, height>> in chain order                                                       *)
-RECURSIVE FoldTxsAt(_, _)
-FoldTxsAt(ts, act) ==
+RECURSIVE FoldTxsAt(_, _, _)
+FoldTxsAt(tr, ts, act) ==
   IF ts = <<>> THEN [U |-> {}, H |-> [s \in Scripts |-> <<>>]]
-  ELSE LET r == FoldTxsAt(Front(ts), act)
+  ELSE LET r == FoldTxsAt(tr, Front(ts), act)
            x == Last(ts)
-           tch == TouchesAt(r.U, x[1], x[2], act)
-       IN [U |-> ApplyTxAt(r.U, x[1], x[2], act),
+           tch == TouchesAt(tr, r.U, x[1], x[2], act)
+       IN [U |-> ApplyTxAt(tr, r.U, x[1], x[2], act),
            H |-> [s \in Scripts |-> IF s \in tch THEN Append(r.H[s], x) ELSE r.H[s]]]
 (* a transaction can be mined on top of tx sequence ts *)
-CanMineAt(ts, t, act) ==
+CanMineAt(tr, ts, t, act) ==
   /\ \A k \in 1..Len(ts) : ts[k][1] # t
-  /\ \A k \in 1..Len(TxIns(t)) : \E e \in FoldTxsAt(ts, act).U : <<e.t, e.i>> = TxIns(t)[k]
-RECURSIVE CanMineAllAt(_, _, _, _)
-CanMineAllAt(ts, S, h, act) ==
+  /\ \A k \in 1..Len(TxIns(t)) : \E e \in FoldTxsAt(tr, ts, act).U : <<e.t, e.i>> = TxIns(t)[k]
+RECURSIVE CanMineAllAt(_, _, _, _, _)
+CanMineAllAt(tr, ts, S, h, act) ==
   IF S = <<>> THEN TRUE
-  ELSE CanMineAt(ts, Head(S), act) /\ CanMineAllAt(Append(ts, <<Head(S), h>>), Tail(S), h, act)
+  ELSE CanMineAt(tr, ts, Head(S), act) /\ CanMineAllAt(tr, Append(ts, <<Head(S), h>>), Tail(S), h, act)
 =============================================================================
